@@ -91,6 +91,17 @@ CHECKS.update({
             "DESIGN.md 4/C07"),
 })
 
+CHECKS.update({
+    "C17": ("model_checking",
+            "explicit-state BFS over layout-preserving edits of seed files (text-deduplicated) with the real loader as transition function; exhaustive single-point corruptions judged by a strict structural reader; corrupt budgets through forked CLI runs",
+            "From 144 merchants seeds and 32 views seeds every text reachable by <=2 layout edits (<=3 for one-section seeds in thorough) is parsed by the real loader and must yield "
+            "exactly the seed's structure (~0.5M states quick). Every single-line deletion, structural-character deletion, unknown key, malformed let/field/priority/match/filter and "
+            "5 invalid-expression kinds on every seed must be rejected with the offending line or its header (or read as the strict reader reads it); 8 corruption kinds x "
+            "`tally up --format json` / `up --summary` / `diag` must show the error and must not behave as with an empty rules file.",
+            "strict reader = mc/ref/rulesfile.py; ambiguous corruptions (duplicate single-valued keys) not judged",
+            "DESIGN.md 4/C17"),
+})
+
 NOT_YET = {}
 
 PROPS = [json.loads(l)["id"] for l in open(os.path.join(ROOT, "properties.jsonl"))]
